@@ -372,6 +372,24 @@ func execC19(c C19Case, bound time.Duration) (facts map[string]bool, err error) 
 					return facts, fmt.Errorf("%s(%q): an abstract address created the file %q", c.Op, addr, m.target)
 				}
 			}
+			if c.Op == "bind" && c.Pre != "bound" && len(addr)%2 == 0 {
+				// variant: shut down without ever serving - the endpoint must be released all the same
+				facts["shutdown-without-serving"] = true
+				svc.Shutdown()
+				if m.fsPath != "" && m.class == "strict" {
+					if _, serr := os.Lstat(m.fsPath); serr == nil {
+						return facts, fmt.Errorf("Bind(%q) then Shutdown (never served): the socket path %q still exists", addr, m.fsPath)
+					}
+				}
+				if m.class == "strict" {
+					if berr := svc.Bind(ctx, addr); berr != nil {
+						return facts, fmt.Errorf("Bind(%q), Shutdown, Bind(%q) again: the second Bind fails (%v): the endpoint was not released", addr, addr, berr)
+					}
+				} else if berr := svc.Bind(ctx, addr); berr != nil {
+					// don't-care class: fall through to the final "can still bind a good address" check
+					goto after
+				}
+			}
 			if c.Op == "bind" {
 				go func() { done <- svc.DoListen(ctx, 0) }()
 			}
@@ -402,6 +420,7 @@ func execC19(c C19Case, bound time.Duration) (facts map[string]bool, err error) 
 			}
 		}
 	}
+after:
 	// whatever happened, the object must still be able to bind and serve a good address
 	if c.Pre == "bound" && preListener != nil {
 		preListener.Close()
